@@ -35,6 +35,13 @@ def gen_request(rng, allow_special=True):
         hs.append((b"Upgrade", b"h2c"))
         hs.append((b"Connection", b"Upgrade, HTTP2-Settings"))
         hs.append((b"HTTP2-Settings", b"AAMAAABkAAQAAP__"))
+    if allow_special and method.upper() != b"GET" and rng.random() < 0.08:
+        # a WebSocket upgrade is a GET (RFC 6455 4.1): on any other method these headers mean nothing, plain HTTP service
+        hs.append((b"Upgrade", b"websocket"))
+        hs.append((b"Connection", rng.choice([b"Upgrade", b"keep-alive, Upgrade"])))
+        if rng.random() < 0.5:
+            hs.append((b"Sec-WebSocket-Key", b"dGhlIHNhbXBsZSBub25jZQ=="))
+            hs.append((b"Sec-WebSocket-Version", b"13"))
     if rng.random() < 0.1:
         hs.append((b"te", b"trailers"))
     head = method + b" " + target + b" " + version + b"\r\n" + b"".join(n + b": " + v + b"\r\n" for n, v in hs) + b"\r\n"
